@@ -29,7 +29,8 @@ class Site:
         self.verdict = None   # ('guarded', idiom) / ('assumed', reason) / ('unguarded', why)
 
     def key(self):
-        return '%s|%s|%s' % (self.func.qualname, self.text, self.exc)
+        # local variable names are not part of a construct's identity
+        return '%s|%s|%s' % (self.func.qualname, A.anon_text(self.node, self.func.node, 80), self.exc)
 
 
 CONV = {'int': 'ValueError', 'float': 'ValueError', 'complex': 'ValueError', 'chr': 'ValueError,OverflowError',
